@@ -144,7 +144,27 @@ TraceSetStepMon == CfgEvent("SetStepMon", Cfg(IF s.dec THEN FinalizeF(s) ELSE s)
 TraceSetTerm   == CfgEvent("SetTerm", Cfg([s EXCEPT !.term = E.term]))
 TraceExit      == CfgEvent("Exit", Cfg([s EXCEPT !.exitreq = TRUE]))
 
-TraceNext == \/ TraceCall \/ TraceIter \/ TraceRet \/ TraceSetLimits \/ TraceSetCfg \/ TraceFinalize
+(* A one-line wrapper call (fmin / fmin_powell / diffev / diffev2) seen from outside: the whole run is one     *)
+(* Solve on a fresh solver whose limits are the wrapper's maxiter / maxfun (None = the solver's default).       *)
+(* Logged: the limits as given, the returned (iter, funcalls, warnflag), the recorder's own count of cost      *)
+(* calls and callbacks, whether a limit had to be reached for the run to end (the recorder ran it with a        *)
+(* termination that cannot hold: `mustlimit`), the lengths of the evaluation / generation monitors handed in.   *)
+TraceWrap ==
+  /\ IsEvent("Wrap")
+  /\ LET t == [s EXCEPT !.limG = E.g, !.limE = E.e, !.nsm = E.nsm, !.dec = FALSE, !.nem = E.nem,
+                         !.fcalls = E.fcalls, !.real = E.real, !.ncb = E.ncb, !.iters = E.gens]
+         maxk == CASE s.kind \in {"DE", "DE2"} -> s.np [] s.kind = "NM" -> s.dim + 2 [] OTHER -> 1000000
+         cl == << <<"C04:evaluation-counter", E.fcalls = E.real>>,
+                  <<"C04:evaluation-monitor-length", E.nem = E.real>>,
+                  <<"C04:step-monitor-length", E.nsm = E.gens + 1>>,
+                  <<"C04:callback-count", Tr[1].cb => E.ncb = E.gens + 1>>,
+                  <<"C05:warnflag-names-a-true-condition", E.warnflag = WarnFlag(t)>>,
+                  <<"C05:generation-limit-exceeded", E.gens <= ResG(t)>>,
+                  <<"C05:evaluation-limit-overshoot", E.fcalls < ResE(t) + maxk>>,
+                  <<"C05:returned-without-stop-condition", E.mustlimit => WarnFlag(t) # 0>> >>
+     IN Probe(cl) /\ AllTrue(cl) /\ s' = [Resolve(t) EXCEPT !.pc = "idle", !.stopped = TRUE]
+
+TraceNext == \/ TraceWrap \/ TraceCall \/ TraceIter \/ TraceRet \/ TraceSetLimits \/ TraceSetCfg \/ TraceFinalize
              \/ TraceSetEvalMon \/ TraceSetStepMon \/ TraceSetTerm \/ TraceExit
 
 TraceSpec == TraceInit /\ [][TraceNext]_tvars
